@@ -179,6 +179,27 @@ func runHand2(oc *fw.Outcome, cc ccase) {
 		{"function-in-expression", "sub vcl_recv {\n  #FASTLY RECV\n  set req.http.X-Added = std.tolower «» ( «» \"YES\" «» ) «» ;\n  set req.http.X-Col = if «» ( «» req.http.X-Added == \"yes\" «» , «» \"t\" «» , «» \"f\" «» ) «» ;\n  log \"added=\" req.http.X-Added \" col=\" req.http.X-Col;\n" + tail, nil},
 		{"table-acl-args", "table tbl { \"k\": \"v\" }\nacl internal { \"10.0.0.0\"/8; }\nsub vcl_recv {\n  #FASTLY RECV\n  set req.http.X-Added = table.lookup «» ( «» tbl «» , «» \"k\" «» , «» \"d\" «» ) «» ;\n  if «» ( «» client.ip «» ~ «» internal «» ) «» { set req.http.X-Col = \"in\"; }\n  log \"added=\" req.http.X-Added \" col=\" req.http.X-Col;\n" + tail, nil},
 	}
+	// programs that end in a runtime error which names an identifier of the program: the reported text is part of the
+	// process document, a comment next to the identifier is no part of the name
+	for _, e := range []struct{ name, decl, stmt string }{
+		{"err:return-type", "sub f «» FOO «» {\n  return \"x\";\n}\n", "set req.http.X-Added = f();"},
+		{"err:undefined-sub", "", "call «» nosuch «» ;"},
+		{"err:undefined-var", "", "set req.http.X-Added = «» nosuch.variable «» ;"},
+		{"err:undefined-fn", "", "set req.http.X-Added = nosuch.fn «» ( «» \"a\" «» ) «» ;"},
+		{"err:set-undefined", "", "set «» nosuch.variable «» = \"1\";"},
+		{"err:table", "", "set req.http.X-Added = table.lookup( «» nosuchtbl «» , \"k\");"},
+		{"err:backend", "", "set req.backend = «» nosuchbackend «» ;"},
+		{"err:acl", "", "if (client.ip ~ «» nosuchacl «» ) { log \"in\"; }"},
+		{"err:type", "", "set req.http.X-Added = std.strlen( «» 5 «» );"},
+		{"err:arity", helpers, "call «» with_args «» ( «» \"a\" «» ) «» ;"},
+		{"err:local", "", "set «» var.nosuch «» = \"1\";"},
+		{"err:unset", "", "unset «» nosuch.variable «» ;"},
+	} {
+		simTemplates = append(simTemplates, struct {
+			name, tpl string
+			mods      map[string]string
+		}{e.name, e.decl + "sub vcl_recv {\n  #FASTLY RECV\n  " + e.stmt + "\n  log \"after\";\n" + tail, nil})
+	}
 	reqs := []flowReq{{Method: "GET", URL: "http://localhost/x"}}
 	for _, t := range simTemplates {
 		parts := strings.Split(t.tpl, "«»")
